@@ -1884,14 +1884,25 @@ class Rule(metaclass=LogicalType):
         throw_options = utype.Options(
             invalid_items="throw", invalid_keys="throw", invalid_values="throw",
         )
-        for i, item in enumerate(value):
-            with context.enter(route=i, options=throw_options) as item_context:
-                try:
-                    item_context.transformer(item, cls.contains)
-                except Exception:  # noqa: whatever the converter raises, the item is not of that type
-                    pass
-                else:
-                    contains += 1
+        try:
+            for i, item in enumerate(value):
+                with context.enter(route=i, options=throw_options) as item_context:
+                    try:
+                        item_context.transformer(item, cls.contains)
+                    except Exception:  # noqa: whatever the converter raises, the item is not of that type
+                        pass
+                    else:
+                        contains += 1
+        except Exception as e:
+            # the value cannot be gone through (not iterable, or its own iteration fails)
+            context.handle_error(
+                exc.ConstraintError(
+                    origin_exc=e,
+                    constraint="contains",
+                    constraint_value=cls.contains,
+                )
+            )
+            return value
 
         if not contains:
             context.handle_error(
